@@ -6,7 +6,7 @@ import ast
 
 from ..absint import Interp, Raised, State
 from ..absval import CharSet, HObj, Opaque, Ref, SeqStr, Unknown
-from ..core import Run
+from ..core import AnalysisError, Run
 from ..effects import Effects
 from ..grammar import FILE_LEXER, QUERY_LEXER, LexerGrammar
 from ..paths import enum_paths, first_index, is_call_to
@@ -75,8 +75,54 @@ def _alphabet(run: Run, I: Interp) -> frozenset[str]:
     return frozenset(A)
 
 
-def _manager_self(st: State):
-    return st.alloc(HObj("obj", cls=f"{ZM}.ZIDManager", fields={"_next_ids_path": Opaque("path:NEXTIDS"), "_mutable_next_id_map": None}))
+def _vp(tag: str) -> Opaque:
+    return Opaque("vpath", tag)
+
+
+def _path_probes(path_method) -> dict:
+    """A notes directory that exists only as names: `dir / "x"` builds names, every file operation on one goes to `path_method`."""
+    def binop(I2, op, l, r, st):
+        if isinstance(op, ast.Div) and isinstance(l, Opaque) and l.cls == "vpath":
+            rs = r.tag if isinstance(r, Opaque) and r.cls == "vpath" else r
+            if isinstance(rs, str):
+                return _vp(rs if rs.startswith("/") else f"{l.tag.rstrip('/')}/{rs}")
+        return None
+
+    def pm(I2, recv, name, args, kwargs, st, node):
+        if name in ("mkdir", "touch"):
+            return [(None, st)]
+        if name in ("resolve", "absolute", "expanduser"):
+            return [(recv, st)]
+        if name == "joinpath" and all(isinstance(a, str) for a in args):
+            return [(_vp("/".join([recv.tag.rstrip("/")] + list(args))), st)]
+        return path_method(I2, recv, name, args, kwargs, st, node)
+
+    def pa(I2, v, name, st, node):
+        if name == "name":
+            return [(v.tag.rsplit("/", 1)[-1], st)]
+        if name == "parent":
+            return [(_vp(v.tag.rsplit("/", 1)[0] or "/"), st)]
+        return None
+
+    def call_any(I2, fv, args, kwargs, st, node):
+        if fv.cls in ("ext:pathlib.Path", "ext:pathlib.PurePath") and args:
+            a = args[0]
+            return [(a if isinstance(a, Opaque) and a.cls == "vpath" else _vp(a) if isinstance(a, str) else Unknown("Path"), st)]
+        return None
+
+    def to_str(I2, v, st):
+        return v.tag if isinstance(v, Opaque) and v.cls == "vpath" else None
+
+    return {"binop": binop, "method:vpath": pm, "getattr:vpath": pa, "call:ext:pathlib.Path": call_any, "str": to_str}
+
+
+def _manager_self(I2: Interp, st: State):
+    """A ZIDManager as its own __init__ builds it for the (virtual) notes directory /Z -- whatever fields / helper objects it keeps."""
+    res = I2.construct(f"{ZM}.ZIDManager", [_vp("/Z")], {}, st)
+    ok = [(v, s) for v, s in res if isinstance(v, Ref) and s is st]
+    if len(res) != 1 or len(ok) != 1 or st.imprecise:
+        raise AnalysisError("cannot construct a ZIDManager abstractly: " + ("; ".join(st.imprecise[:2]) or repr([v for v, _ in res])[:80]))
+    return ok[0][0]
 
 
 def _io_probes(get_result):
@@ -109,8 +155,7 @@ def _io_probes(get_result):
     def handle_method(I2, recv, name, args, kwargs, st, node):
         return [(None if name in ("write", "close", "__exit__") else recv, st)]
 
-    return {"method:path:NEXTIDS": path_method, "method:ext:json": json_method, "method:idmap": idmap_method, "method:handle": handle_method,
-            "call:*": lambda I2, fv, args, kwargs, st, node: ([(args[0] if fv.cls == "ext:builtins.dict" and args else Opaque("idmap"), st)] if False else None)}
+    return {**_path_probes(path_method), "method:ext:json": json_method, "method:idmap": idmap_method, "method:handle": handle_method}
 
 
 def _seed_ids(run: Run, I: Interp) -> list[str]:
@@ -129,7 +174,7 @@ def _seed_ids(run: Run, I: Interp) -> list[str]:
     I2 = Interp(I.model, probes=probes)
     st0 = State()
     try:
-        I2.run_function(F_GET, [_manager_self(st0), Opaque("date")], st=st0)
+        I2.run_function(F_GET, [_manager_self(I2, st0), Opaque("date")], st=st0)
     except Exception as e:
         run.undecided("C07.R1", "get_next", f"cannot interpret get_next: {type(e).__name__}: {e}")
         return []
@@ -316,7 +361,7 @@ def check(run: Run) -> None:
     probes2[F_NEXT] = lambda I3, args, kwargs, st, node: [(Opaque("succ"), st)]
     I2 = Interp(model, probes=probes2)
     st0 = State()
-    self_ref = _manager_self(st0)
+    self_ref = _manager_self(I2, st0)
     shapes = []
     for v, st in I2.run_function(F_GET, [self_ref, Opaque("date")], st=st0):
         if isinstance(v, Raised):
@@ -539,8 +584,10 @@ def persistence_scenarios(run: Run, model: PyModel, rid: str, order=None) -> Non
         def date_or_ext(I2, recv, name, args, kwargs, st, node):
             return date_method(I2, recv, name, args, kwargs, st, node) or ext_method(I2, recv, name, args, kwargs, st, node)
 
-        return {"method:path:NEXTIDS": path_method, "method:ext:json": json_method, "method:vday": date_or_ext, "method:handle": handle_method, "method:*": ext_method, "call:*": call_any,
-                "binop": binop, "compare": compare}
+        pp = _path_probes(path_method)
+        path_binop = pp.pop("binop")
+        return {**pp, "method:ext:json": json_method, "method:vday": date_or_ext, "method:handle": handle_method, "method:*": ext_method, "call:*": call_any,
+                "binop": lambda I2, op, l, r, st: path_binop(I2, op, l, r, st) or binop(I2, op, l, r, st), "compare": compare}
 
     fi_get = model.func(F_GET)
     n = 0
@@ -548,7 +595,7 @@ def persistence_scenarios(run: Run, model: PyModel, rid: str, order=None) -> Non
         I2 = Interp(model, probes=make_probes(loaded))
         st0 = State()
         try:
-            res = I2.run_function(F_GET, [_manager_self(st0), Opaque("vday", "20240102")], st=st0)
+            res = I2.run_function(F_GET, [_manager_self(I2, st0), Opaque("vday", "20240102")], st=st0)
         except Exception as e:
             run.undecided(rid, "ZIDManager.get_next", f"{label}: cannot interpret: {type(e).__name__}: {str(e)[:100]}")
             continue
